@@ -67,6 +67,11 @@ CHECKS = {
     text="The sweep model (shared with C04/C07) proves for every small multiset and tie order that the accumulated time per running mask equals the time during which exactly that combination runs; 300/4000 generated traces x num_kernels {1,2,3,10} x duration_ratio {0.1,0.5,0.8,1} x include_memory_kernels are run through the real API and TLC checks every type row (Exactly summed over ranks, total, percentages) and, per (rank, type): conservation of the sums incl. 'others', the bound on named rows, and sum/min/max/mean of every named row.",
     note="Which names are folded into 'others' is left open (the statement does not fix it). " + TB,
     ref="DESIGN.md section 5 (C05)"),
+ "C17": dict(
+    technique="TLA+ partition-law model of the five change-class predicates (MC_Diff) checked by TLC + TLC trace validation of TraceDiff.compare_traces / ops_diff against CountOf / DurOf / ClassOfCounts (Diff.tla)",
+    text="TLC checks over all count tables (3 names, counts 0..3) that the predicates ops_diff applies are pairwise disjoint, covering and equal to the declarative classes; 120/1500 generated pairs of trace sets (1-3 ranks, 1-3 steps, rank and iteration selections incl. proper subsets, CPU/GPU/ALL, long/short names, self-comparison through two objects and through the same object) go through the real API and TLC recomputes every row and class from the parsed frames.",
+    note="Frames, iteration numbers and durations are those LabeledTrace parses; short names via the ShortName table in TraceModel.tla. " + TB,
+    ref="DESIGN.md section 5 (C17)"),
 }
 
 NOT_YET = {}
